@@ -3,6 +3,15 @@
 import json, sys
 pid, n = sys.argv[1], (sys.argv[2] if len(sys.argv) > 2 else "a")
 p = [json.loads(l) for l in open('/verif/properties.jsonl') if json.loads(l)['id'] == pid][0]
+import glob, os
+prev = []
+for m in sorted(glob.glob(f"/verif/seeded/{pid}*/meta.json")):
+    d = json.load(open(m))
+    files = [l[6:].strip() for l in open(os.path.dirname(m) + "/patch.diff") if l.startswith("+++ b/")]
+    prev.append(f"- a change in {', '.join(files)}: {d['needs_to_manifest']}")
+avoid = ""
+if prev:
+    avoid = "7. Earlier seeded changes for this property (yours must be DIFFERENT: another code site, another clause of the statement, another mechanism):\n" + "\n".join(prev) + "\n\n"
 wt = f"/tmp/seed-{pid}{n}"
 out = f"/tmp/seedout-{pid}{n}"
 print(f"""You are helping evaluate a verification framework for the Rust QUIC implementation genmeta/gm-quic (a cargo workspace at /repo, pinned commit). Your job: produce ONE realistic source change to gm-quic that BREAKS the semantic property below while the code still compiles and the repository's existing test suite still passes, plus a demonstration that fails with your change and passes without it.
@@ -16,8 +25,8 @@ Rules:
 1. Work ONLY in your own scratch git worktree: run `git -C /repo worktree add --detach {wt} HEAD` and edit files under {wt}. Never edit /repo itself, never read or write anything under /verif. Use `CARGO_NET_OFFLINE=true` and `--offline` for all cargo commands (there is no network). Use `CARGO_TARGET_DIR={wt}/target`.
 2. The change must be the kind of bug a maintainer could plausibly introduce (an off-by-one, a wrong comparison, a missed state update, a reordered pair of statements, a dropped wake-up, a wrong field, an optimisation that forgets a case) — small (a few lines, in non-test source files of the workspace crates). It must NOT be exposed by ordinary use at once: it should need something specific to manifest — a particular interleaving, a loss/fault at a particular point, a multi-step sequence of operations, an unusual (boundary) input, or two cooperating sites that each look fine alone. Do not touch existing tests. Do not add cfg flags or features.
 3. The existing suite must still pass with your change: run `cd {wt} && CARGO_NET_OFFLINE=true cargo nextest run --workspace --no-fail-fast --offline` (fallback `cargo test --workspace --no-fail-fast --offline`); all 306 tests that pass on the unchanged tree must still pass. If a test fails, pick a different change.
-4. Write a demonstration: a new Rust test file (e.g. {wt}/<crate>/tests/demo_{pid.lower()}{n}.rs using only the crate's public API, or a `#[cfg(test)]` module in a NEW file if private access is needed) that FAILS with your change applied and PASSES on the unchanged code. Verify both directions yourself (use `git stash` / `git apply -R` in your worktree to test without the change).
+4. Write a demonstration: a new Rust test file (e.g. {wt}/<crate>/tests/demo_{pid.lower()}{n}.rs using only the crate's public API, or a `#[cfg(test)]` module in a NEW file if private access is needed) that FAILS with your change applied and PASSES on the unchanged code. Verify both directions yourself (use `git diff > /tmp/x.diff; git apply -R /tmp/x.diff` in your worktree to test without the change; do NOT use `git stash` — stashes are shared with /repo).
 5. Deliver into the directory {out}/ (create it): `patch.diff` (output of `git diff` for the source change ONLY, without the demo test, applicable with `git apply` at the repo root), the demo test file(s) with a short `demo_README.md` saying where the file goes and the exact command that runs it, and `notes.md` describing: what the change is, why it breaks the property, what specific circumstances are needed for it to manifest, and what you ran (with results).
 6. When done, remove your worktree and its build output: `git -C /repo worktree remove --force {wt}`.
 
-Finish with a brief summary of what you delivered. Be efficient: builds take a minute or two; avoid rebuilding unnecessarily.""")
+{avoid}Finish with a brief summary of what you delivered. Be efficient: builds take a minute or two; avoid rebuilding unnecessarily.""")
